@@ -256,6 +256,9 @@ class World(object):
                             n.var, c.var)
                 elif not pos[n.var] < pos[c.var]:
                     return 'live node %s not ordered above child %s' % (n.var, c.var)
+            if not (hasattr(n, 'f_low') and hasattr(n, 'f_high')):
+                continue        # the unique table is no longer kept in parent sets of this name: the
+                #                 store-level checks below (triples, functions, reachability) still apply
             if n not in n.low.f_low or n not in n.high.f_high:
                 return 'live node missing from its children\'s parent sets'
             for p in list(n.f_low):
